@@ -574,3 +574,22 @@ func shortPkg(path string) string {
 	}
 	return path
 }
+
+
+// assumeTyping assumes the typing facts (integer ranges, well-formed slice and
+// string headers) of every leaf field reachable by value from object v.
+func (e *Env) assumeTyping(v Value) {
+	if v.K != VPtr && v.K != VStruct {
+		return
+	}
+	t := v.Typ
+	if v.K == VPtr {
+		t = derefType(t)
+	}
+	walkLeaves(t, nil, func(steps []subStep, lf leaf) {
+		switch lf.K {
+		case VInt, VSlice, VStr:
+			e.assume(e.wfLoaded(e.loadField(subID(v.T, steps), lf)))
+		}
+	})
+}
